@@ -108,4 +108,11 @@ inductive UStep where
   | other (src : String)
   deriving DecidableEq, Repr
 
+/-- how the governance end-blocker (x/gov/abci.go, `case passes:`) executes the messages of a passed proposal -/
+structure ProposalExec where
+  runsOnCache : Bool             -- the handlers get the context returned by `ctx.CacheContext()`
+  breaksOnError : Bool           -- `if err != nil { break }` in the message loop
+  writeGuardedByNoError : Bool   -- every `writeCache()` is inside `if err == nil { … }` after the loop
+  deriving DecidableEq, Repr
+
 end FxVerif.Model.C16
